@@ -629,6 +629,9 @@ func unfolder(c *simkit.Choices, x *simkit.Ctx) *simkit.Violation {
 			st.Probe("unfolder-value-not-foldable")
 			return nil
 		}
+		if c.N(4) == 0 {
+			evs = model.RetypeNumbers(c, evs) // the same values in other integer event kinds
+		}
 		docs = append(docs, docT{te: te, evs: evs, ref: c.Bool(), src: v})
 		sc.Types = append(sc.Types, te.Name)
 		if i < nh {
